@@ -4,6 +4,8 @@
 -/
 import WrapModel.Model.Parse
 import WrapModel.Model.Dump
+import WrapModel.Lemmas.AgreeLemmas
+import WrapModel.Lemmas.TypeRoundTrip
 
 namespace WrapModel.Props.C01
 open WrapModel
@@ -18,5 +20,42 @@ theorem C01_smoke :
     parsesTo "namespace n { class A : B { A(const T<int>& x = f(1, 2)); }; }"
       "Ns(\"\",[Ns(\"n\",[Class(None,-,\"A\",PT(T([],\"B\",[])),[Ctor(None,\"A\",[A(X(T([],\"T\",[T([],\"int\",[])]),[S(T([],\"int\",[]),--,b)],c&),\"x\",\"f(1, 2)\")],[\"\",\"n\",\"A\"])],[],[],[],[],[],[],[\"\",\"n\"])],[\"\"])],None)" = true := by
   decide +kernel
+
+/-! ### the round trip `parse ∘ render = id`, proved for TYPES (every nesting depth, every layout)
+
+`Spec.tyLex` is the canonical printer of a type into lexemes (the harness generator prints the same way),
+`Spec.TyWF` says which trees are in the dialect (names that are not keywords or basic types, `basic` flag consistent,
+non-empty template argument lists), `Spec.NoCont rest` says that what follows does not continue the type
+(no `::`, `<`, `*`, `@`, `&`), `Tok.Spells ls s` that the characters `s` spell the lexemes `ls` with arbitrary
+whitespace and comments in between. -/
+
+open Tok Spec in
+/-- **C01 (types, lexeme level).** -/
+theorem C01_type_roundtrip_lexemes (t : CType) (hwf : TyWF t) (n : Nat) (hn : tyFuel t ≤ n) (rest : List Lexeme)
+    (hrest : t.quals.suffix = .none → NoCont rest) :
+    runL (Parse.ptype n) (tyLex t ++ rest) = .ok ⟨t, pairFlag t⟩ rest :=
+  ptype_lex n t hn hwf rest hrest
+
+open Tok Spec in
+/-- **C01 (types, character level).**  For every well-formed type `t`, every continuation `rest` that does not continue a
+    type, and EVERY spelling `s` of the lexemes of `t` followed by `rest` (any whitespace, block and line comments
+    between the tokens), the type reader returns exactly `t` and stops in front of a spelling of `rest`. -/
+theorem C01_type_roundtrip (t : CType) (hwf : TyWF t) (n : Nat) (hn : tyFuel t ≤ n) (rest : List Lexeme)
+    (hrest : t.quals.suffix = .none → NoCont rest) (s : Lex.Src) (hs : Spells (tyLex t ++ rest) s) :
+    ∃ s', (Parse.ptype n).run s = .ok (⟨t, pairFlag t⟩, s') ∧ Spells rest s' :=
+  (lift (Parse.ptype n) hs).1 _ _ (ptype_lex n t hn hwf rest hrest)
+
+/-- non-vacuity: `const std::vector<gtsam::Pose3*>&` is well-formed, and an argument name may follow it -/
+def exType : CType :=
+  .templ ["std"] "vector" [.simple ⟨["gtsam"], "Pose3", []⟩ ⟨false, .shared⟩ false] ⟨true, .ref⟩
+
+open Tok Spec in
+example : TyWF exType ∧ NoCont [.word "poses", .sym ")"] ∧
+    tyLex exType = [.word "const", .word "std", .sym "::", .word "vector", .sym "<", .word "gtsam", .sym "::", .word "Pose3",
+      .sym "*", .sym ">", .sym "&"] := by
+  refine ⟨?_, ?_, ?_⟩
+  · simp (config := {decide := true}) [exType, TyWF, TysWF, FirstOK, startsDunder]
+  · rw [noCont_iff]; simp (config := {decide := true}) [ansWord]
+  · simp (config := {decide := true}) [exType, tyLex, tysLex, tysTailLex, namesLex, identsLex, constLex, sufLex]
 
 end WrapModel.Props.C01
